@@ -381,6 +381,18 @@ func replayRegion(args []string) {
 				}
 			}
 			stores = append(stores, full, sparse, []KV{})
+			// two thin random stores per case (seeded by case index, so a re-run sees the same ones): which key happens to be
+			// the first one beyond the region decides whether a wrong end test shows; in the dense stores it is always a short key
+			srng := rand.New(rand.NewSource(envSeed()*1000003 + int64(idx)))
+			for _, den := range []int{5, 9} {
+				var thin []KV
+				for i := range full {
+					if srng.Intn(den) == 0 {
+						thin = append(thin, full[i])
+					}
+				}
+				stores = append(stores, thin)
+			}
 			for si, pairs := range stores {
 				for _, kind := range []string{"select", "delete"} {
 					q := selQ
